@@ -23,7 +23,8 @@ CLAIM = dict(
           'Fortran memory order in all three reshapes), the quadrature weight w = w_lon·w_lat multiplies the input of analysis exactly once and never synthesis, '
           'padding of f, p, w is zero padding; Grid.integrate contracts both nodal axes with w·radius²; the masks are |m| ≤ l (and, for the fast layout, the '
           'padding / zero-imaginary-row conjuncts); the spectral constant √(4π) literal is correct to 5e-8. Also decided: no function updates in place an object that may alias shared state (cached_property values such as the basis / quadrature weights, dataclass fields, module constants: may-alias analysis over augmented assignments, subscript stores and mutating calls). Does not decide round-trip residuals or exactness '
-          'of the quadrature numerically.'),
+          'of the quadrature numerically.'
+          ' Later additions: C01.8 the named factory grids resolve their truncation (node counts vs. dealiasing order), C01.9 metric factors (cos/sec of latitude) as normal forms, C01.7 extended to hand-rolled memo tables (the key must cover every parameter path the cached value is computed from).'),
     note=('Reference: ε(l,m) = √((l²−m²)/(4l²−1)); P̄_l^m = (x·P̄_(l−1)^m − ε(l−1,m)·P̄_(l−2)^m)/ε(l,m); P̄_m^m = −√(1+1/2m)·√(1−x²)·P̄_(m−1)^(m−1); P̄_0^0 = 1/√2 '
           '(unit L²[−1,1] norm). einsum semantics; np.pad default = zero padding.'),
     technique='normal forms of recurrence constants (sympy canonicalisation) + einsum-subscript algebra (adjoint pairing) + dependence / structural matching',
